@@ -1,14 +1,123 @@
 /-
-  ICG.Driver.Rgt — line protocol of domain `rgt` (stub: to be filled in by the domain's owner).
+  ICG.Driver.Rgt — line protocol of domain `rgt` (the regret minimiser, ICG.Model.Regret at `Rat`).
+
+    rgt cup <m> <k>                               coalitions_up_to(m, k)                       → nat
+    rgt metaids <n> <limit>                       metacoalition_ids_by_coalition_size          → nats | err
+    rgt pidmap <n>                                get_coalition_player_id_map                  → ints
+    rgt new <name> <n> <limit> <plus:0|1>         constructor, allocation policy of the current tree
+    rgt new <name> <n> <limit> <plus> <tableLen> <storedLimit>
+                                                  constructor with the observed allocation     → ok | err
+    rgt info <name>                               n= m= limit= plus= V= R= tlen= it=
+    rgt ranks <name>                              ids=<rank→id> inv=<id→rank at those ids>
+    rgt table <name>                              the whole id→rank table
+    rgt metaid <name> <coalitions>                get_metacoalition_id                         → nat | err
+    rgt strategy <name> <metaId>                  regret_matching_strategy(int)                → rats | err
+    rgt strategyc <name> <coalitions>             regret_matching_strategy(list)               → rats | err
+    rgt avg <name> <coalitions>                   get_average_strategy                         → rats | err
+    rgt iter <name> <terminal losses> <lists>     regret_min_iteration; lists `a,b;c,d;e` (`e` = empty list)
+    rgt regret <name> / rgt cumstrat <name>       rows separated by `;`
+    rgt saveload <name> <new> [<tableLen> <storedLimit>]
+                                                  new := load(save(name)) (constructor re-run under the policy)
 -/
+import ICG.Model.Regret
 import ICG.Driver.Proto
 namespace ICG.Driver.Rgt
-open ICG ICG.Proto
+open ICG ICG.Proto ICG.Regret
 
-abbrev State := Unit
-def init : State := ()
+abbrev State := List (String × RM Rat)
+def init : State := []
+
+def get? (s : State) (name : String) : Option (RM Rat) := (s.find? (·.1 == name)).map (·.2)
+def put (s : State) (name : String) (t : RM Rat) : State := (name, t) :: s.filter (·.1 != name)
+
+def showInts (l : List Int) : String := showList toString l
+def showRows (l : List (List Rat)) : String :=
+  if l.isEmpty then "-" else ";".intercalate (l.map showRats)
+
+def parseLists? (s : String) : Option (List (List Nat)) :=
+  if s = "-" || s = "" then some []
+  else (s.splitOn ";").mapM (fun g => if g = "e" then some [] else parseNats? g)
+
+def answer {β} (f : β → String) : Except Err β → String
+  | .ok x => f x
+  | .error e => toString e
+
+def parsePolicy? : List String → Option Policy
+  | [] => some Policy.current
+  | [a, b] => do
+    let a ← a.toNat?
+    let b ← b.toNat?
+    pure (Policy.explicit a b)
+  | _ => none
+
+def parseBool? (s : String) : Option Bool :=
+  if s = "1" then some true else if s = "0" then some false else none
+
+def withRM (s : State) (name : String) (f : RM Rat → String) : State × String :=
+  match get? s name with
+  | some rm => (s, f rm)
+  | none => (s, "bad-op")
 
 def handle (s : State) : List String → State × String
+  | ["cup", m, k] =>
+    match m.toNat?, k.toNat? with
+    | some m, some k => (s, toString (coalitionsUpTo m k))
+    | _, _ => (s, "bad-op")
+  | ["metaids", n, limit] =>
+    match n.toNat?, limit.toNat? with
+    | some n, some limit => (s, answer showNats (metaIdsArr (numCoalitions n) limit))
+    | _, _ => (s, "bad-op")
+  | ["pidmap", n] =>
+    match n.toNat? with
+    | some n => (s, showInts (coalitionPlayerIdMap n))
+    | _ => (s, "bad-op")
+  | "new" :: name :: n :: limit :: plus :: pol =>
+    match n.toNat?, limit.toNat?, parseBool? plus, parsePolicy? pol with
+    | some n, some limit, some plus, some p =>
+      match RM.new (α := Rat) p n limit plus with
+      | .ok rm => (put s name rm, "ok")
+      | .error e => (s, toString e)
+    | _, _, _, _ => (s, "bad-op")
+  | ["info", name] =>
+    withRM s name (fun rm =>
+      s!"n={rm.n} m={rm.m} limit={rm.limit} plus={if rm.plus then 1 else 0} V={rm.V} R={rm.R} tlen={rm.idToRank.size} it={rm.iteration}")
+  | ["ranks", name] =>
+    withRM s name (fun rm =>
+      let inv := rm.rankToId.map (fun id => match rm.idToRank[id]? with | some r => toString r | none => "x")
+      s!"ids={showNats rm.rankToId} inv={showList id inv}")
+  | ["table", name] => withRM s name (fun rm => showNats rm.idToRank.toList)
+  | ["metaid", name, cs] =>
+    match parseNats? cs with
+    | some cs => withRM s name (fun rm => answer toString (rm.getMetacoalitionId cs))
+    | none => (s, "bad-op")
+  | ["strategy", name, mid] =>
+    match mid.toNat? with
+    | some mid => withRM s name (fun rm => answer showRats (rm.regretMatching mid))
+    | none => (s, "bad-op")
+  | ["strategyc", name, cs] =>
+    match parseNats? cs with
+    | some cs => withRM s name (fun rm => answer showRats (rm.regretMatchingOf cs))
+    | none => (s, "bad-op")
+  | ["avg", name, cs] =>
+    match parseNats? cs with
+    | some cs => withRM s name (fun rm => answer showRats (rm.averageStrategy cs))
+    | none => (s, "bad-op")
+  | ["iter", name, term, lists] =>
+    match parseRats? term, parseLists? lists, get? s name with
+    | some term, some lists, some rm =>
+      match rm.iterate term lists with
+      | .ok rm' => (put s name rm', "ok")
+      | .error e => (s, toString e)
+    | _, _, _ => (s, "bad-op")
+  | ["regret", name] => withRM s name (fun rm => showRows rm.regret)
+  | ["cumstrat", name] => withRM s name (fun rm => showRows rm.strategy)
+  | "saveload" :: name :: new :: pol =>
+    match get? s name, parsePolicy? pol with
+    | some rm, some p =>
+      match RM.load p rm.save with
+      | .ok rm' => (put s new rm', "ok")
+      | .error e => (s, toString e)
+    | _, _ => (s, "bad-op")
   | _ => (s, "bad-op")
 
 end ICG.Driver.Rgt
